@@ -33,23 +33,55 @@
        the root and every fw.groups entry name a group item.  CreateForWrite establishes it; CreateGroup and CreateDataset
        preserve it in every branch, refused calls included.
 
+   Third round (all closed, universal):
+     - C03_file_tree_depth1_partial: for EVERY flat history h (Model/TreeFlat.v flat_hist: each call either leaves the writer's
+       state exactly as it was - any refusal: duplicate, missing parent, missing target, capacity, malformed path, any hard
+       link that is refused - or is a CreateGroup / CreateDataset with the root as parent, covered arguments, file below 2^62)
+       with at least one successful creation, hdf5.Open's program on tree_image h returns the root with exactly
+       flat_nodes h: one child per SUCCESSFUL call, in call order, named by the link name the call parsed, a group or a dataset
+       as the call said, at the header address the allocator gave it.  It composes
+         C03_file_flat_init / C03_file_flat_group_step / C03_file_flat_dataset_step / C03_file_flat_run  (the CONTENT invariant
+         FlatInv - root segment and node agree with a name list by Proofs/GroupNSHeap.v gwf, every item is an empty group as
+         written or a dataset with a header the reader accepts, entry i = (offset of name i, header address of an item), child
+         B-trees distinct - is established by CreateForWrite and preserved by every flat step; C03_file_link_root is
+         linkToParent into the root: C03_file_link_commutes + GroupNS's heap_link) with
+         C03_file_flat_open  (an instance of C03_file_open_depth1; C03_file_tree_depth1_example shows all hypotheses are
+         satisfiable on a history with three refused calls).
+     - C03_file_tree_empty: the file without any creation, evaluated.
+     - Model/TreeFlat.v C03_file_tree_full : Prop is the statement for arbitrary depth (NOT proved).
+
+   What separates C03_file_tree_depth1_partial from "the specification tree of h":
+     (i)   which calls succeed is tree_oks h - the decision of the byte-level model (compared with the library on every run), not
+           yet proved equal to the specification's decision (first conjunct of Props/C03.v C03_refines).  Under FlatInv the
+           model's three refusals are already characterised: duplicate iff the name is in the name list (dup_check_iff), heap
+           full iff 256 < used + len + 1 (heap_link), node full iff 32 entries (C03_file_link_commutes): exactly s_link's rule;
+           missing is the bookkeeping that the invariant's name list is the key list of the specification's root.
+     (ii)  successful hard links are outside flat histories: FlatInv has no step lemma for the header rewrite with the RefCount
+           message (it needs the pure decoder's round trip on the dataset header and that the rewritten header still satisfies
+           dset_hdr_ok); C03_file_open_depth1 itself already accepts several entries with one dataset address.
+     (iii) the children's addresses are stated through the model's allocator (end of file at the call), not through an
+           independent address assignment.
+     (iv)  depth > 1 (see below) and the hypothesis 2197 <= file length (the root header lemma wants two bytes behind the header).
+
    NOT proved:
-     (1) Placed for CreateHardLink's successful branch: it needs one more clause in the invariant (every entry's object address is
-         the header address of an item, so that the header rewrite lands inside that item's header block) and the pure header
-         decoder's round trip on it; the refused branches return the state unchanged by definition.
-     (2) C03_file_tree_depth1 / the all-histories theorem: Placed is the LAYOUT invariant; the reader theorem needs in addition
-         the CONTENT of each item (header block = a dataset / group header that C03_file_open_depth1 accepts, entry i of the
-         root node = (offset of name i, header address of item i), NoDup of the child groups' B-trees) and the agreement of the
-         root group's (segment, node) with Model/GroupNS.v's state (C03_file_link_commutes gives exactly that per step), then
-         Props/C03.v C03_refines through the map call index -> header address.
-     (3) depth > 1: C03_file_children_loop_depth1 generalised from "child = dataset or EMPTY group" to "child = any tree", by
-         induction on the loader fuel with the invariants vbt/loading/cnt of C03_file_object_child as induction hypothesis. *)
+     (1) C03_file_tree_full.  Missing lemmas: (a) a children loop whose children are arbitrary trees: generalise
+         C03_file_children_loop_depth1 by induction on the loader fuel, with C03_file_object_child's state equations (visited
+         B-trees grow by the subtree's B-trees, loading restored, counter + size of the subtree) as induction hypothesis;
+         C03_file_modern_placed / C03_file_children_placed are already generic in the recursive call; (b) FlatInv for
+         arbitrary parents: the invariant of the root (gwf + entries) for EVERY group item, indexed through fw.groups
+         (C03_file_step_..._preserves_placed has the layout half); (c) the hard-link step of (ii); (d) the simulation
+         FlatInv ~ Model/GroupNS.v state (call index <-> header address) that imports C03_refines.
+     (2) Placed for CreateHardLink's successful branch (layout level): needs the clause "every entry's object address is the
+         header address of an item".
+   *)
 From HV Require Import Base.Prelude Base.Outcome Base.Bytes Model.IOProg Model.IOProgReader Model.IOProgOpen.
 From HV Require Import Model.RobustAlloc Model.RobustGroup Model.CodecType Model.GroupWire Model.FileImage Model.TreeImage.
 From HV Require Import Proofs.GroupWireHeap Proofs.GroupWireSnod Proofs.FileImage Proofs.FileImageData.
 From HV Require Import Proofs.FileImageOhdr Model.CodecOhdr Model.CodecSuper.
 From HV Require Import Proofs.TreeImageLink Proofs.TreeImageRead Proofs.TreeImageExamples Proofs.TreeImageHdr Proofs.TreeImageOpen
-  Proofs.TreeImagePlaced Proofs.TreeImageStep.
+  Proofs.TreeImagePlaced Proofs.TreeImageStep Proofs.TreeImageFlat Proofs.TreeImageFlatStep Proofs.TreeImageFlatRead Proofs.TreeImageFlatMain.
+From HV Require Import Model.TreeFlat.
+From HV Require Proofs.GroupNSHeap.
 From HV Require Model.GroupNS.
 
 (* once prepareLink has accepted the call, the model's linkToParent is the heap rewrite followed by the node rewrite *)
@@ -246,3 +278,89 @@ Theorem C03_file_close_image : forall lay, Forall item_ok lay ->
   t_close (image lay) = enc_superblock (sb_eof (48 + lsize lay)) ++ layout 48 lay.
 Proof. exact close_image. Qed.
 Print Assumptions C03_file_close_image.
+
+(* ================================================================== third round: depth-1 histories *)
+Theorem C03_file_flat_init : FlatInv t_init [].
+Proof. exact flat_init. Qed.
+Print Assumptions C03_file_flat_init.
+
+(* linkToParent into the root of a flat image: the root's segment and node stay well-formed for the name list + the new name *)
+Theorem C03_file_link_root : forall st seg s rest ns parent nm oa f2,
+  t_file st = image (flat_lay seg s rest) -> blen seg = 256 -> snode_ok s = true -> (length (stn_entries s) <= 32)%nat ->
+  GH.gwf seg (map abs_sym (stn_entries s)) ns -> oa < 18446744073709551616 ->
+  NS.is_root_parent parent = true ->
+  link_to_parent st parent nm oa = Ok f2 ->
+  exists seg' s1 off, f2 = image (flat_lay seg' s1 rest) /\ blen seg' = 256 /\ snode_ok s1 = true /\
+    stn_entries s1 = stn_entries s ++ [new_sym off oa] /\ (length (stn_entries s1) <= 32)%nat /\
+    GH.gwf seg' (map abs_sym (stn_entries s1)) (ns ++ [nm]).
+Proof. exact link_root. Qed.
+Print Assumptions C03_file_link_root.
+
+Theorem C03_file_flat_group_step : forall st nodes p, FlatInv st nodes ->
+  NS.is_root_parent (fst (NS.parse_path (NS.trim_suffix_slash p))) = true -> blen (t_file st) + 3000 < LIM ->
+  FlatInv (fst (t_create_group st p))
+    (if snd (t_create_group st p)
+     then nodes ++ [Grp (snd (NS.parse_path (NS.trim_suffix_slash p))) (blen (t_file st) + 2120) []] else nodes).
+Proof. exact flat_group_step. Qed.
+Print Assumptions C03_file_flat_group_step.
+
+Theorem C03_file_flat_dataset_step : forall st nodes p code dims data, FlatInv st nodes ->
+  NS.is_root_parent (fst (NS.parse_path p)) = true -> op_args_ok (TDataset p code dims data) = true ->
+  blen (t_file st) + blen data + 3000 < LIM ->
+  FlatInv (fst (t_create_dataset st p code dims data))
+    (if snd (t_create_dataset st p code dims data)
+     then nodes ++ [Dset (snd (NS.parse_path p)) (blen (t_file st) + blen data)] else nodes).
+Proof. exact flat_dataset_step. Qed.
+Print Assumptions C03_file_flat_dataset_step.
+
+Theorem C03_file_flat_run : forall h st nodes, FlatInv st nodes -> flat_hist st h ->
+  FlatInv (fst (t_run st h)) (nodes ++ flat_nodes st h).
+Proof. exact flat_run. Qed.
+Print Assumptions C03_file_flat_run.
+
+Theorem C03_file_flat_open : forall hfuel, (4 < hfuel)%nat -> forall st nodes n,
+  FlatInv st nodes -> 2197 <= blen (t_file st) -> blen (t_file st) + 4000 < LIM ->
+  let f := t_close (t_file st) in
+  run0 f (p_open true (blen f) (S (S (S (S (S n))))) hfuel) = Ok (Grp [47] 2168 nodes).
+Proof. exact flat_open. Qed.
+Print Assumptions C03_file_flat_open.
+
+Theorem C03_file_tree_depth1_partial : forall h n hfuel, (4 < hfuel)%nat -> flat_hist t_init h ->
+  2197 <= blen (t_file (fst (tree_run h))) -> blen (t_file (fst (tree_run h))) + 4000 < FLAT_LIM ->
+  run0 (tree_image h) (p_open true (blen (tree_image h)) (S (S (S (S (S n))))) hfuel) = Ok (Grp [47] 2168 (flat_nodes t_init h)).
+Proof. exact tree_depth1_partial. Qed.
+Print Assumptions C03_file_tree_depth1_partial.
+
+Theorem C03_file_tree_empty : run0 (tree_image []) (p_open true (blen (tree_image [])) 5 5) = Ok (Grp [47] 2168 []).
+Proof. exact tree_empty. Qed.
+Print Assumptions C03_file_tree_empty.
+
+(* the hypotheses of C03_file_tree_depth1_partial (hence of C03_file_open_depth1, which it instantiates) are satisfiable:
+   /g, /d, /d again (refused), /g/x/y (refused), hard link /l -> /n (refused) *)
+Theorem C03_file_tree_depth1_example :
+  flat_hist t_init flat_ex /\ 2197 <= blen (t_file (fst (tree_run flat_ex))) /\
+  blen (t_file (fst (tree_run flat_ex))) + 4000 < FLAT_LIM /\
+  tree_oks flat_ex = [true; true; false; false; false] /\
+  flat_nodes t_init flat_ex = [Grp [103] 4315 []; Dset [100] 4580].
+Proof. exact flat_ex_ok. Qed.
+Print Assumptions C03_file_tree_depth1_example.
+
+(* refused calls leave the state (file and fw.groups) exactly as it was: these discharge the first alternative of flat_step *)
+Theorem C03_file_group_refused_unchanged : forall st p,
+  (forall x, prepare_link st (fst (NS.parse_path (NS.trim_suffix_slash p))) (snd (NS.parse_path (NS.trim_suffix_slash p))) 0 <> Ok x) ->
+  t_step st (TGroup p) = (st, false).
+Proof. exact group_refused_unchanged. Qed.
+Print Assumptions C03_file_group_refused_unchanged.
+
+Theorem C03_file_dataset_refused_unchanged : forall st p code dims data,
+  (forall x, prepare_link st (fst (NS.parse_path p)) (snd (NS.parse_path p)) 0 <> Ok x) ->
+  t_step st (TDataset p code dims data) = (st, false).
+Proof. exact dataset_refused_unchanged. Qed.
+Print Assumptions C03_file_dataset_refused_unchanged.
+
+Theorem C03_file_hardlink_refused_unchanged : forall st p q,
+  (forall t, resolve_addr st q <> Ok t) \/
+  (forall x, prepare_link st (fst (NS.parse_path p)) (snd (NS.parse_path p)) 0 <> Ok x) ->
+  t_step st (THardLink p q) = (st, false).
+Proof. exact hardlink_refused_unchanged. Qed.
+Print Assumptions C03_file_hardlink_refused_unchanged.
